@@ -37,7 +37,8 @@ Finish(q) ==
     /\ done' = Append(done, q)
     \* body size: nothing larger than the maximum is forwarded, however its length was announced
     /\ (maxBody > 0 /\ q.size > maxBody) => (~q.adm /\ q.st >= 400)
-    /\ (q.adm /\ maxBody > 0) => q.upLen <= maxBody
+    \* (on the translated Anthropic route the backend gets a re-written body, whose length is not the client's)
+    /\ (q.adm /\ maxBody > 0 /\ q.route # "anthropic") => q.upLen <= maxBody
     \* Anthropic requests above max_message_size get 413 and go nowhere
     /\ (q.route = "anthropic" /\ q.size > maxMsg) => (q.st = 413 /\ ~q.adm)
     \* an excess request is refused with 429 (the backends of these scenarios always answer 200, so a
